@@ -33,8 +33,14 @@ def gen_layers(rng, p):
     layers = []
     # adversarial naming: dotted names that are prefixes / substrings of each other
     family = None
-    if rng.random() < p.get('p_prefix_names', 0.25):
+    r = rng.random()
+    if r < p.get('p_prefix_names', 0.25):
         family = rng.sample(['K', 'KA', 'KAB', 'KB', 'K_', 'Kx1', 'AK', 'KAK'], min(n, 8))
+    elif r < p.get('p_prefix_names', 0.25) + p.get('p_punct_names', 0.12):
+        # names continuing another one after a non-word character (plone.testing style
+        # 'Fixture:Functional'): a word-boundary match still confuses them
+        family = rng.sample(['Fx', 'Fx:Func', 'Fx-2', 'Fx:Func:More', 'Fx~', 'aFx', 'Fx@db',
+                             'Fx:'], min(n, 8))
     for i in range(n):
         kind = 'inst' if rng.random() < p['p_inst'] else 'class'
         cands = [L['name'] for L in layers if kind == 'inst' or L['kind'] == 'class']
@@ -189,6 +195,7 @@ def materialise(world, root):
     _w(os.path.join(pkg, '__init__.py'), '')
     _w(os.path.join(pkg, 'layers.py'), simrt.LAYERS_STUB)
     _w(os.path.join(tests, '__init__.py'), '')
+    os.makedirs(os.path.join(root, 'xml'), exist_ok=True)    # target of --xml
     for m in world['modules']:
         _w(os.path.join(tests, m['name'] + '.py'), simrt.TESTS_STUB)
     return src
@@ -514,6 +521,8 @@ def argv(opt, src):
         a.append('--gc-after-test')
     if opt.get('color'):
         a.append('-c')
+    if opt.get('xml'):
+        a += ['--xml', os.path.join(os.path.dirname(src), 'xml')]
     for x in opt.get('extra') or []:
         a.append(x)
     return a
@@ -525,7 +534,7 @@ def split_defaults(tokens, rng, p=0.5):
     groups = []
     i = 0
     takes_value = {'--path', '--test-path', '-t', '-m', '--layer', '--repeat', '--shuffle-seed',
-                   '--ignore_dir', '--tests-pattern', '--test-file-pattern', '-s'}
+                   '--ignore_dir', '--tests-pattern', '--test-file-pattern', '-s', '--xml'}
     while i < len(tokens):
         if tokens[i] in takes_value and i + 1 < len(tokens):
             groups.append(tokens[i:i + 2])
